@@ -4,6 +4,8 @@
 package c10
 
 import (
+	"regexp"
+	"strings"
 	"testing"
 
 	"verif/internal/gen/xsugar"
@@ -16,13 +18,28 @@ func TestMain(m *testing.M) {
 		"programs of 10 items; each item is an overload set of 2-4 candidates whose parameter type tuples (arity 1-2 over int, string, bool, float64, []int, *T, T, func(int) int) are pairwise different, declared as inline func literals, named functions, methods ((T).m = ...), a mix of literals and names, or operators on a struct type (binary + - * == <, unary -, and the multi-type (T).* = ((T).mulInt, (T).mulT, intMulT) form); the candidate list is written in a drawn permutation; every candidate is called with typed variables of exactly its parameter types. Reference: the same functions called directly by name in Go. Oracle: each call prints the tag of the candidate whose parameters equal the argument types (and its result). Non-trivial = >= 3 candidates, mixed style or multi-type operator; distinct = (style, type tuples, order)")
 }
 
-var oracle = sugarcheck.NewOracle("pair", nil)
+// refine names the one known rejection: a candidate body that calls the overloaded name itself.
+func refine(line, errText string) string {
+	if m := undefOv.FindStringSubmatch(errText); m != nil && strings.Contains(line, m[1]+"(") && strings.Contains(line, "return 100 + ") {
+		return "cl-rejects:overload-called-from-candidate"
+	}
+	return ""
+}
+
+var undefOv = regexp.MustCompile(`undefined: (\w+)`)
+
+var oracle = sugarcheck.NewOracle("pair", refine)
 
 func TestOverloads(t *testing.T) {
 	sugarcheck.Run(t, vk.R, sugarcheck.Options{
 		Name:    "pair",
 		Oracle:  oracle,
-		Program: func(g *xsugar.G) *xsugar.Program { return xsugar.OverloadProgram(g, 10) },
+		Program: func(g *xsugar.G) *xsugar.Program {
+			// candidate bodies that call the overloaded name are generated once the listed finding
+			// about them is repaired (until then the regress file decides it)
+			g.Flags["overload-self-call"] = !vk.R.HasKnown("cl-rejects:overload-called-from-candidate")
+			return xsugar.OverloadProgram(g, 10)
+		},
 		// the styles shown in doc/overload.md must compile; mixing literals and names in one set is
 		// not shown there, so its rejection is only counted
 		Documented: func(it xsugar.Item) bool { return it.Kind != "overload-mixed" },
